@@ -132,3 +132,4 @@ LEVEL = {
 CFG['rule'] = CFG['rule'] + ' ' + 'One history in sixteen contains an oversized insert request (1100..1300 points with empty documents in the quick tier, 5000..6700 in the thorough tier) whose last point re-uses a stored id: rejected inside the transaction, nothing may stay; its fault sweep uses eight positions spread over the batch.'
 
 CFG['rule'] = CFG['rule'] + ' ' + 'In every second history every delete batch and every other batch from the second on fails ONCE at one fault position and is not repeated (the history goes on from the unchanged state on the same shard object); a plain insert of up to three points follows a delete that failed this way, executed once without a fault sweep.'
+CFG['rule'] = CFG['rule'] + ' ' + 'One history in six has a graph index whose binary quantiser learns its threshold inside the history.'
